@@ -893,6 +893,25 @@ impl World {
         self.assemble(parent, &pst, ep, ts, recipe, committed, proposals, uncles)
     }
 
+    /// A child of `parent` with exactly the given proposals and commits (no uncles, no new txs).
+    pub fn build_plain(&mut self, parent: usize, ts_delta: u64, seed: u64, proposals: Vec<ProposalShortId>, committed: Vec<MTx>) -> usize {
+        let pst = self.st(parent).clone();
+        let pblock = self.blocks[parent].clone();
+        let ep = self.next_epoch(&pst);
+        let median = self.median_time(&pst.chain);
+        let ts = (pblock.view.timestamp() + ts_delta).max(median + 1);
+        let recipe = Recipe { ts_delta, miner: 2, new_txs: 0, propose: 0, commit: 0, uncles: 0, ext_extra: 0, seed, mutation: None };
+        self.assemble(parent, &pst, ep, ts, &recipe, committed, proposals, Vec::new())
+    }
+
+    /// Forget the blocks with index >= n (they must never have been delivered).
+    pub fn rollback_to(&mut self, n: usize) {
+        while self.blocks.len() > n {
+            let b = self.blocks.pop().unwrap();
+            self.by_hash.remove(&b.view.hash());
+        }
+    }
+
     /// Put a block together from explicit parts (cellbase, dao, extension computed by the model).
     #[allow(clippy::too_many_arguments)]
     pub fn assemble(
@@ -978,7 +997,7 @@ impl World {
         let miner_issuance = (g2 as u128 * pd.u as u128 / pd.c as u128) as u64;
         let dao = Dao {
             c: pd.c + g,
-            u: pd.u + added - freed,
+            u: (pd.u + added).saturating_sub(freed),
             s: pd.s + (g2 - miner_issuance), // no DAO withdrawals in generated histories
             ar: pd.ar + (pd.ar as u128 * g2 as u128 / pd.c as u128) as u64,
         };
